@@ -29,6 +29,7 @@ pub enum Kind {
     PipeDrain,
     BlockReadable,
     Body,
+    CellAccess,
 }
 
 /// Description of one operation.
@@ -586,6 +587,39 @@ pub mod atomic {
             match self.compare_exchange(cur, new, o, fail_ord(o)) {
                 Ok(v) | Err(v) => v,
             }
+        }
+    }
+}
+
+pub mod cell {
+    //! Mirrors `std::cell::UnsafeCell`; obtaining the raw pointer is reported as an access.
+    use std::cell as sc;
+
+    /// Shim for `std::cell::UnsafeCell`.
+    #[derive(Default)]
+    #[repr(transparent)]
+    pub struct UnsafeCell<T>(sc::UnsafeCell<T>);
+
+    impl<T> UnsafeCell<T> {
+        pub const fn new(v: T) -> Self {
+            UnsafeCell(sc::UnsafeCell::new(v))
+        }
+        pub fn get(&self) -> *mut T {
+            let p = self.0.get();
+            super::point(super::Kind::CellAccess, p as usize);
+            p
+        }
+        pub fn get_mut(&mut self) -> &mut T {
+            self.0.get_mut()
+        }
+        pub fn into_inner(self) -> T {
+            self.0.into_inner()
+        }
+    }
+
+    impl<T> From<T> for UnsafeCell<T> {
+        fn from(v: T) -> Self {
+            Self::new(v)
         }
     }
 }
